@@ -225,6 +225,16 @@ def setFloat (b : BT) (q : Q) : Res RV :=
   | .f64 => .ok (.r .f64 (.flt q))
   | _ => .crash
 
+/-- value.go `setConstFloat`: the exact constant rounded to the floating-point type (`Float32Val` / `Float64Val`) -/
+def setConstFloatY (b : BT) (c : CV) : Res RV :=
+  match c.toFloat with
+  | .flt q =>
+    (match b with
+     | .f32 => (match round32 q with | some r => .ok (.r .f32 (.flt r)) | none => .unm "float-inf")
+     | .f64 => (match round64 q with | some r => .ok (.r .f64 (.flt r)) | none => .unm "float-inf")
+     | _ => .crash)
+  | _ => .ok (.r b (.flt ⟨0, 1⟩))      -- Unknown: Float64Val answers 0
+
 /-- Go run-time arithmetic on int64 / uint64 operands for the operator of a typed arm
     (`signed`: the arm works on int64, else on uint64); the result is then stored with SetInt/SetUint,
     which keeps the low bits of the kind. Division by zero is a Go run-time panic. -/
@@ -301,7 +311,12 @@ def foldBinY (F : Facts) (a : Act) (nty : Ty) (v0 v1 : RV) : Res RV :=
 where
   fallthroughArms (_F : Facts) (g : FoldFn) (t : BT) (v0 v1 : RV) : Res RV :=
     if t.isFloat then
-      (match armOf g .flt with
+      (match armOf g .fltExact with
+       | some op =>
+         -- the exact result (go/constant on the exact operand values) rounded once to the type (149d328)
+         (cBinary op (constValueY v0) (constValueY v1)).bind fun r => setConstFloatY t r
+       | none =>
+       match armOf g .flt with
        | some op => (vFloat v0).bind fun a => (vFloat v1).bind fun b => (goFloatOp op a b).bind fun q => setFloat t q
        | none => .ok (zeroRV t))
     else if t.isUint then
@@ -361,7 +376,10 @@ def foldUnY (F : Facts) (a : Act) (nty : Ty) (v0 : RV) : Res RV :=
              | _ => .unm "typed-arm-operator")
          | _, _, _ => .crash)
       else if t.isFloat then
-        (match armOf g .flt, v with
+        (match armOf g .fltExact with
+         | some op => (cUnary op v).bind fun r => setConstFloatY t r
+         | none =>
+         match armOf g .flt, v with
          | some .sub, .flt q => setFloat t q.neg
          | some .add, .flt q => setFloat t q
          | _, _ => .crash)
@@ -588,9 +606,13 @@ def shiftCountY (F : Facts) (c1 : NS) : Res NS :=
 
 /-- `check.shift`, left operand: an untyped constant is replaced by `constant.ToInt` of itself and must then be an
     Int; otherwise the operand must be of integer type -/
-def shiftLeftY (c0 : NS) : Res NS :=
+def shiftLeftY (F : Facts) (c0 : NS) : Res NS :=
   match c0.ty.untyped, c0.rv with
-  | true, .r _ _ => .crash              -- `c0.rval.Interface().(constant.Value)`: the type assertion panics
+  | true, .r _ _ =>
+    -- an untyped constant that holds a Go value (`true`, `false`): before 1122c63 the type assertion to constant.Value
+    -- panicked; since then the operand is left alone and refused unless its type is an integer type
+    if !F.eval.chk.shiftBoolGuard then .crash
+    else if c0.ty.isInt then .ok c0 else .reject
   | _, _ =>
     let c0' : NS := match c0.ty.untyped, c0.rv with
       | true, .c v => { c0 with rv := .c v.toInt }
@@ -601,7 +623,7 @@ def shiftLeftY (c0 : NS) : Res NS :=
 /-- `check.shift` on the operands: the (possibly mutated) operands, or reject; the last test is the limit on
     constant shift counts (eeab028) -/
 def checkShiftY (F : Facts) (c0 c1 : NS) : Res (NS × NS) :=
-  (shiftLeftY c0).bind fun c0' => (shiftCountY F c1).bind fun c1' =>
+  (shiftLeftY F c0).bind fun c0' => (shiftCountY F c1).bind fun c1' =>
     match F.eval.chk.shiftCountMax with
     | none => .ok (c0', c1')
     | some m => (vUint c1'.rv).bind fun s => if s > m then .reject else .ok (c0', c1')
@@ -618,7 +640,12 @@ def stayUntypedY (F : Facts) (forced : Option Ty) (shift : Bool) (c0 c1 : NS) : 
     nor `bool`: the pushed-down type unless the operation stays untyped, `nodeType` when nothing was pushed -/
 def nodeTyY (F : Facts) (forced : Option Ty) (shift : Bool) (c0 c1 : NS) : Ty :=
   match stayUntypedY F forced shift c0 c1 with
-  | some f => f
+  | some f =>
+    -- an arithmetic or bitwise operation on a typed operand has the type of this operand, whatever the type expected
+    -- by the context (2988c87); `%` and shifts of a typed operand take the type of their first operand anyway
+    if F.eval.chk.operandTypeWins && !shift then
+      (if !c0.ty.untyped then c0.ty else if !c1.ty.untyped then c1.ty else f)
+    else f
   | none => binTypeY shift c0.ty c1.ty
 
 /-- post-order case `binaryExpr` for `<<` and `>>` -/
@@ -632,14 +659,17 @@ def shiftNodeY (F : Facts) (env : Env) (forced : Option Ty) (a : Act) (c0 c1 : N
 
 /-- `check.binaryExpr`, case aAdd: "catch mixing string and number for + operator use" — the type the node already
     has (pushed down, or left by an earlier walk) against the types of the operands -/
-def addOkY (a : Act) (forced : Option Ty) (t0 t1 : Ty) : Bool :=
+def addOkY (F : Facts) (a : Act) (forced : Option Ty) (c0 c1 : NS) : Bool :=
   match a, forced with
-  | Act.add, some f => !(f.isNumber != t0.isNumber || f.isNumber != t1.isNumber)
+  | Act.add, some f =>
+    -- two untyped constants are not compared with the type of the node (4bed514): their sum stays untyped
+    if F.eval.chk.addSkipsUntyped && isUntypedConstY c0 && isUntypedConstY c1 then true
+    else !(f.isNumber != c0.ty.isNumber || f.isNumber != c1.ty.isNumber)
   | _, _ => true
 
 /-- `check.binaryExpr` for the arithmetic operators: the (possibly mutated) operands, or reject -/
 def checkBinaryY (F : Facts) (forced : Option Ty) (a : Act) (c0 c1 : NS) : Res (NS × NS) :=
-  if !addOkY a forced c0.ty c1.ty then .reject
+  if !addOkY F a forced c0 c1 then .reject
   else
     (if a == Act.rem || a == Act.quo then zeroConstY F c1 else .ok false).bind fun z =>
     if z then .reject
@@ -709,7 +739,9 @@ def convNodeY (F : Facts) (t : BT) (c1 : NS) : Res NS :=
      else if c1.ty.isInt && t == BT.str then
        -- string(rune(codepoint)), codepoint = the int64 value or -1; `rune(…)` keeps the low 32 bits
        let cp : Int := match c with | .int v => if int64Ok v then v else -1 | _ => -1
-       Res.ok { c1 with rv := .c (.str (utf8 (wrapK .int32 cp))) }
+       -- a value that is not a rune is not a valid code point (a1f1717); before, `rune(int64)` kept the low 32 bits
+       let cp' : Int := if F.eval.chk.codepointChecked then (if wrapK .int32 cp == cp then cp else -1) else wrapK .int32 cp
+       Res.ok { c1 with rv := .c (.str (utf8 cp')) }
      else Res.reject
    | .r _ v =>
      -- a typed constant converted to a numeric type is a constant conversion (e6c1f4a)
@@ -733,6 +765,13 @@ def stripPar : CExpr → CExpr
   | .par x => stripPar x
   | e => e
 
+/-- a literal operand keeps, in a later walk, the conversion (`typ` and reflect `rval`) that `convertUntyped` gave it in
+    the first walk, where its sibling `sib1` had the type it computed itself -/
+def keepY (F : Facts) (leaf : CExpr) (c sib1 : NS) : NS :=
+  if isLeaf (stripPar leaf) && c.ty.untyped && !sib1.ty.untyped then
+    (match convertUntypedY F c sib1.ty with | .ok (some c') => c' | _ => c)
+  else c
+
 /-- constructs whose yaegi side is outside the model (none since comparisons, logical operators and `!` are folded;
     kept as the hook the declaration models consult) -/
 def unmodelledU (_underBin : Bool) : CExpr → Option String
@@ -742,7 +781,11 @@ def unmodelled (e : CExpr) : Option String := unmodelledU false e
 
 /-- one `cfg` walk over an expression -/
 def evalY (F : Facts) (env : Env) : (forced : Option Ty) → CExpr → Res NS
-  | _, .int v => .ok { rv := .c (.int v), ty := .u .int, fidx := true }
+  | _, .int v =>
+    -- nodeType2, basicLit: an integer literal of more than 512 bits is a constant overflow (638fc07)
+    (match F.eval.chk.litBitsMax with
+     | some m => if bitLen v > m then .reject else .ok { rv := .c (.int v), ty := .u .int, fidx := true }
+     | none => .ok { rv := .c (.int v), ty := .u .int, fidx := true })
   | _, .rune v => .ok { rv := .c (.int v), ty := .u .rune, fidx := true }
   | _, .flt q => .ok { rv := .c (.flt q), ty := .u .float, fidx := true }
   | _, .bool b => .ok { rv := .r .bool (.bool b), ty := .u .bool, fidx := true }   -- universe `true`/`false`: rval is a Go bool
@@ -785,12 +828,8 @@ def evalY (F : Facts) (env : Env) : (forced : Option Ty) → CExpr → Res NS
       (evalY F env f0 x).bind fun c0 => (evalY F env f1 y).bind fun c1 =>
         let node (c0 c1 : NS) : Res NS := if isCmpAct a then cmpNodeY F a c0 c1 else logicNodeY F a c0 c1
         if env.pass2 && !env.typedDecl then
-          let keep (leaf : CExpr) (c sib1 : NS) : NS :=
-            if isLeaf (stripPar leaf) && c.ty.untyped && !sib1.ty.untyped then
-              (match convertUntypedY F c sib1.ty with | .ok (some c') => c' | _ => c)
-            else c
           match evalY F { env with pass2 := false } none x, evalY F { env with pass2 := false } none y with
-          | .ok s0, .ok s1 => node (keep x c0 s1) (keep y c1 s0)
+          | .ok s0, .ok s1 => node (keepY F x c0 s1) (keepY F y c1 s0)
           | _, _ => node c0 c1
         else node c0 c1
     else (evalY F env forced x).bind fun c0 => (evalY F env forced y).bind fun c1 =>
@@ -798,12 +837,8 @@ def evalY (F : Facts) (env : Env) : (forced : Option Ty) → CExpr → Res NS
       else if env.pass2 && !env.typedDecl && (a != Act.quo || !F.eval.chk.quoEarlyReturn) then
         -- a literal operand keeps the conversion (`typ` and reflect `rval`) that `convertUntyped` gave it in the
         -- first walk, where its sibling had the type it computed itself, not the type pushed down now
-        let keep (leaf : CExpr) (c sib1 : NS) : NS :=
-          if isLeaf (stripPar leaf) && c.ty.untyped && !sib1.ty.untyped then
-            (match convertUntypedY F c sib1.ty with | .ok (some c') => c' | _ => c)
-          else c
         match evalY F { env with pass2 := false } none x, evalY F { env with pass2 := false } none y with
-        | .ok s0, .ok s1 => binNodeY F env forced a (keep x c0 s1) (keep y c1 s0)
+        | .ok s0, .ok s1 => binNodeY F env forced a (keepY F x c0 s1) (keepY F y c1 s0)
         | _, _ => binNodeY F env forced a c0 c1
       else binNodeY F env forced a c0 c1
   | _, .conv t x =>
@@ -829,7 +864,7 @@ def evalY (F : Facts) (env : Env) : (forced : Option Ty) → CExpr → Res NS
       else
         -- `isConstString(n.child[1])`: a string literal or a go/constant string (a2a892e)
         let constStr : Bool := F.eval.chk.lenConstString &&
-          ((match x with | .str _ => true | _ => false) || isConstRV c1.rv)
+          (F.eval.chk.lenAnyConstString || (match x with | .str _ => true | _ => false) || isConstRV c1.rv)
         if !env.inConst && !constStr then .unm "len-at-run-time"
         else (vString c1.rv).bind fun s =>              -- lenConst
           .ok { rv := .r (.i .int) (.int s.length), ty := .t (.i .int), inner := c1.loose, set := true }
